@@ -80,6 +80,17 @@ def write_config(tree, cfg, rng):
                 f.write(mix("%s@%s" % (a["loc"], ".".join(a["dom"]))) + "\n")
             for d in cfg["bmfdom"]:
                 f.write("@" + mix(".".join(d)) + "\n")
+    # the documented freedoms of a control file: a comment, trailing blanks, an empty line, a last line without its line feed
+    for fn in ("rcpthosts", "badmailfrom"):
+        p_ = os.path.join(ctl, fn)
+        if os.path.exists(p_) and rng.random() < 0.6:
+            lines = open(p_).read().split("\n")[:-1]
+            if lines:
+                lines.insert(rng.randrange(len(lines) + 1), "# comment")
+                lines.insert(rng.randrange(len(lines)), "")
+                lines[-1] = lines[-1] + rng.choice(["", " ", "\t"])
+                with open(p_, "w") as f:
+                    f.write("\n".join(lines) + ("" if rng.random() < 0.5 and not lines[-1].startswith("#") else "\n"))
     if cfg["lip"] != ["test", "example"]:
         with open(os.path.join(ctl, "localiphost"), "w") as f:
             f.write(".".join(cfg["lip"]) + "\n")
